@@ -1,6 +1,6 @@
 ------------------------------- MODULE MC_Sched -------------------------------
 EXTENDS Sched
-Sg(io, cpu, fixed, read, grow) == [io |-> io, cpu |-> [c \in 1..4 |-> cpu], fixed |-> fixed, read |-> read, grow |-> grow]
+Sg(io, cpu, fixed, read, grow) == [io |-> io, cpu |-> [c \in 1..8 |-> cpu], fixed |-> fixed, read |-> read, grow |-> grow]
 Op(par, segs) == [par |-> par, segs |-> segs]
 Short == <<Sg(0,1,1,0,0)>>   Long == <<Sg(0,2,1,0,0)>>   Big == <<Sg(0,1,9,0,0)>>   Grow == <<Sg(2,0,-1,2,1)>>   Zero == <<Sg(0,0,1,0,0)>>
 Med == <<Sg(0,2,2,0,0)>>
@@ -11,7 +11,14 @@ ShapesA == { << Op(<<>>, Short) >>,                                            \
              << Op(<<>>, Zero),  Op(<<1>>, Med) >> }                            \* zero-tick first op, then one that OOMs in a small container
 ShapesOne == { << Op(<<>>, Short), Op(<<>>, Grow), Op(<<1,2>>, Short) >> }
 CfgNaive2  == [np |-> 2, cpucap |-> 2, ramcap |-> 3, oc |-> FALSE, multi |-> TRUE, suspNum |-> 1, suspDen |-> 2, U |-> 1,
-               minOneTick |-> TRUE, minSuspTick |-> TRUE, checkPool |-> TRUE, reconcileOnSuspend |-> TRUE]
+               minOneTick |-> TRUE, minSuspTick |-> TRUE, checkPool |-> TRUE, reconcileOnSuspend |-> TRUE, requeueShortSuspension |-> TRUE]
+CfgPP      == [CfgNaive2 EXCEPT !.cpucap = 8, !.ramcap = 8]
+CfgPr      == [CfgNaive2 EXCEPT !.np = 1, !.cpucap = 2, !.ramcap = 4, !.suspDen = 1]       \* suspension of ram ticks
+CfgPr2     == [CfgNaive2 EXCEPT !.np = 2, !.cpucap = 1, !.ramcap = 2]
+CfgPr1     == [CfgNaive2 EXCEPT !.np = 1, !.cpucap = 1, !.ramcap = 2]
+CfgPr1D7   == [CfgPr1 EXCEPT !.requeueShortSuspension = FALSE]
+CfgPrS     == [CfgPr EXCEPT !.multi = FALSE]
+CfgPrD7    == [CfgPr2 EXCEPT !.requeueShortSuspension = FALSE]
 CfgNaive2S == [CfgNaive2 EXCEPT !.multi = FALSE]
 CfgNaive1  == [CfgNaive2 EXCEPT !.np = 1, !.cpucap = 1]
 CfgOver    == [CfgNaive2 EXCEPT !.oc = TRUE, !.multi = FALSE, !.ramcap = 3]
